@@ -97,6 +97,16 @@ func c13Slots() []c13Program {
 	add("summarize-key-reassigned", false, false, func(e string) string { return "T | summarize count() by k = " + e + ", k = b" })
 	add("sort-repeated", false, false, func(e string) string { return "T | sort by " + e + ", b, " + e })
 	add("right-side-extend-reassigned", false, false, func(e string) string { return "T | join kind=inner (U | extend w = " + e + ", w = v) on k | count" })
+	// the unselected branch of an iff whose condition is a binding; a violation late on a line that has multi-byte text before it
+	add("iff-then-under-bound-false", false, false, func(e string) string { return "let strict = false; T | extend v = iff(strict, " + e + ", c) | take 3" })
+	add("iff-else-under-bound-true", false, false, func(e string) string {
+		return "let on = true; let off = false; T | where iff(on, 1, " + e + ") > 0 | project a"
+	})
+	add("iff-under-bound-null", false, false, func(e string) string { return "let u = null; T | extend v = iff(u, " + e + ", " + e + ")" })
+	add("after-multibyte-text", false, false, func(e string) string { return "Cities | where name == \"Zürich–Genève–Köln\" and " + e })
+	add("after-multibyte-text-long", false, false, func(e string) string {
+		return "T | where s == '" + strings.Repeat("é–", 40) + "' | extend `ü` = 1\n| where t == \"日本語日本語日本語\" or " + e
+	})
 	add("let-value", false, true, func(e string) string { return "let v = " + e + "; T | take 5" })
 	add("let-value-second", false, true, func(e string) string { return "let u = 1; let v = u + " + e + "; T | where a > v" })
 	add("let-value-after-bindings", false, true, func(e string) string {
@@ -284,6 +294,25 @@ func c13Main(r *run.Runner) {
 				mustFail(w, fmt.Sprintf(form, n), "row-count-not-integer")
 			}
 		}
+	})
+	// large but valid let expansions compile (doubling chains, many long string bindings of which one is used)
+	r.Sweep("large-let-expansions", 8, func(w *run.Worker, item int64) {
+		var sb strings.Builder
+		if item < 5 {
+			depth := 16 + int(item)
+			sb.WriteString("let s0 = 1; ")
+			for i := 1; i <= depth; i++ {
+				fmt.Fprintf(&sb, "let s%d = s%d + s%d; ", i, i-1, i-1)
+			}
+			fmt.Fprintf(&sb, "T | where a == s%d | take 1", depth)
+		} else {
+			n := []int{10, 40, 100}[item-5]
+			for i := 0; i < n; i++ {
+				fmt.Fprintf(&sb, "let t%d = '%s';\n", i, strings.Repeat("x", 30000))
+			}
+			sb.WriteString("T | where a == t3 | take 1")
+		}
+		mustCompile(w, sb.String(), "large-let-expansion")
 	})
 	// arity rules do not wrap around at large argument counts
 	r.Sweep("large-arities", int64(len(c13Arities)), func(w *run.Worker, item int64) {
